@@ -123,7 +123,7 @@ func c16run(c *Ctx) {
 	// --- ConvertString on every string of length <= L over the alphabet
 	L := 4
 	if c.Thorough() {
-		L = 6
+		L = 7
 	}
 	var rec func(prefix []byte)
 	rec = func(prefix []byte) {
@@ -234,7 +234,7 @@ func c16run(c *Ctx) {
 	sidAlpha := []byte{0x00, 0x01, 0x05, 0xff}
 	SL := 8
 	if c.Thorough() {
-		SL = 10
+		SL = 12
 	}
 	var rec4 func(prefix []byte)
 	rec4 = func(prefix []byte) {
@@ -249,7 +249,14 @@ func c16run(c *Ctx) {
 		}
 	}
 	rec4(nil)
-	for _, cnt := range []int{0, 1, 2, 3, 15, 255} {
+	cnts := []int{0, 1, 2, 3, 15, 63, 64, 65, 127, 128, 255}
+	if c.Thorough() {
+		cnts = nil
+		for i := 0; i < 256; i++ {
+			cnts = append(cnts, i)
+		}
+	}
+	for _, cnt := range cnts {
 		full := append([]byte{1, byte(cnt), 0, 0, 0, 0, 0, 5}, make([]byte, 4*cnt)...)
 		for i := range full[8:] {
 			full[8+i] = byte(i*37 + 1)
